@@ -9,7 +9,7 @@ def run(tier, seed):
     ck.trusted += ["coq/Wasm/Sem.v reference semantics (hand-written from the specification), tied to BOTH engines by differential runs",
                    "harness/common generator + encoder (valid-by-construction programs), harness/c01, checks/wcommon.py"]
     ck.assumptions += ["the SSA compiler, register allocator, encoder and native execution are exercised, not modelled",
-                       "floats, SIMD, atomics, bulk memory, reference-type instructions are outside this generator (C05 covers numerics)"]
+                       "floats, SIMD, bulk memory, reference-type instructions are outside the three-way generator (no model); they are covered engine-vs-engine by the typed-coverage stream (C05 covers numerics against the spec); atomics are not generated"]
     proofs_ok = ck.proofs()
     n = 150 if tier == "quick" else 4000
     if not proofs_ok: n *= 2
@@ -64,10 +64,60 @@ def run(tier, seed):
                 ck.violation("engine-vs-spec", {"kind": "engine-vs-spec", "engine": eng},
                              {"code": code, "meaning": "index of first differing call; 1000 host log, 1001 globals, 1002 memory, 1003 pages", "case": cases[idx[k]]})
                 shown += 1
+    typed_coverage_stream(ck, seed, 40 if tier == "quick" else 1500, dist)
     ck.dist = dist
     if not proofs_ok and not ck.violations:
         ck.violation("proof-broken", {"kind": "proof-broken"}, getattr(ck, "proof_failure", {}), no_input=True)
     return ck.finish()
+
+
+def typed_coverage_stream(ck, seed, n, dist):
+    """Engine-vs-engine only (no model: W has integers only): modules of the type-coverage generator of harness/c03
+    (every value type incl. f32/f64/v128/funcref/externref, block parameters, multi-value, tables, bulk memory, SIMD
+    lanes), compiled, instantiated and called on both engines in capped child processes; any difference in results,
+    trap class or final state is the property failing on that module."""
+    binp, log = build_harness("c03")
+    if not binp:
+        ck.violation("harness-build", {"kind": "build", "harness": "c03"}, {"log": log[-2000:]}, no_input=True)
+        return
+    work = os.path.join(WORK, "c01_g2")
+    os.makedirs(work, exist_ok=True)
+    rc, out = sh([binp, "-mode", "run", "-seed", str(seed + 1000), "-nleb", "0", "-nvalid", "0", "-nvalid2", str(n), "-nmut", "0", "-nrand", "0",
+                  "-probes=false", "-par", "6", "-work", work], timeout=2400)
+    inputs, res = {}, {}
+    for l in out.split("\n"):
+        if not l.startswith("{"): continue
+        try: d = json.loads(l)
+        except ValueError: continue
+        if d.get("ev") == "input": inputs[len(inputs)] = d
+        elif d.get("ev") == "res": res[d["id"]] = d
+    tc = {"modules": len(inputs), "ran": 0, "calls": 0, "outcomes": {}, "not_compiled": 0}
+    dist["typed_coverage_stream"] = tc
+    if rc != 0 or len(res) < len(inputs):
+        missing = [i for i in inputs if i not in res][:3]
+        ck.violation("engine-crash", {"kind": "child-death", "stream": "typed-coverage"},
+                     {"rc": rc, "missing": [{"id": i, "wasm_hex": inputs[i]["hex"]} for i in missing], "tail": out[-1500:]})
+        return
+    shown = 0
+    for i, r in sorted(res.items()):
+        comp = r.get("comp") or {}
+        if not (r["dec"]["ok"] and all(comp.get(e, {}).get("ok") for e in ("interp", "compiler"))):
+            tc["not_compiled"] += 1
+            if shown < 2:
+                shown += 1
+                ck.violation("valid-module-rejected", {"kind": "valid-module-rejected", "stream": "typed-coverage"},
+                             {"id": i, "decode": r["dec"], "compile": comp, "wasm_hex": inputs[i]["hex"]})
+            continue
+        tc["ran"] += 1
+        ro = (r.get("run") or {}).get("interp") or {}
+        tc["calls"] += ro.get("calls", 0)
+        for k, v in (ro.get("outcomes") or {}).items():
+            tc["outcomes"][k] = tc["outcomes"].get(k, 0) + v
+        if r.get("engdiff") and shown < 2:
+            shown += 1
+            ck.violation("engines-differ", {"kind": "engines-differ", "stream": "typed-coverage"},
+                         {"id": i, "diff": r["engdiff"], "run": r.get("run"), "wasm_hex": inputs[i]["hex"]})
+    ck.cases += 2 * tc["ran"]
 
 
 # ---------------------------------------------------------------------------------------------------------------
